@@ -1,4 +1,5 @@
 import FeatModel.Lemmas.C13Examples
+import FeatModel.Lemmas.C13CompEx
 /-! # C13 — distributed vector synchronisation (Gate / SynchVectorTicket / Global::Matrix) -/
 open FeatModel.Dist FeatModel.C13L
 
@@ -201,3 +202,301 @@ example : ∀ r, r < exDecomp.np → ∀ i, i < (exDecomp.patch r).n →
 example : val ((sync0 exDecomp.patches exOrds exVs).getD 0 []) 0
     = ((List.range exDecomp.np).map fun s => (exDecomp.sharedVals exVs s (exDecomp.gdof 0 0)).sum).sum :=
   C13.sync0_sum exDecomp exDecomp_wf exVs (by decide) exOrds (by decide) 0 (by decide) 0 (by decide)
+
+/-! ## Composite (tuple / power / nested) mirrors and vectors -/
+
+/-- (A) `buffer_size` is the length of the flattened mirror -/
+theorem C13.flatIdx_length {α : Type} [Field α] (m : CMir) (v : CVec α) (h : m.wf v = true) (voff : Nat) :
+    (m.flatIdx v voff).length = m.bufSize v :=
+  FeatModel.C13L.flatIdx_length m v h voff
+
+/-- the POD offset of a subtree only shifts the flattened indices -/
+theorem C13.flatIdx_shift {α : Type} [Field α] (m : CMir) (v : CVec α) (voff : Nat) :
+    m.flatIdx v voff = (m.flatIdx v 0).map (· + voff) :=
+  FeatModel.C13L.flatIdx_shift m v voff
+
+/-- every flattened mirror index addresses an entry of the flattened vector -/
+theorem C13.flatIdx_lt {α : Type} [Field α] (m : CMir) (v : CVec α) (h : m.wf v = true) :
+    ∀ i ∈ m.flatIdx v 0, i < v.podSize :=
+  FeatModel.C13L.flatIdx_lt m v h
+
+theorem C13.podSize_eq_flat_length {α : Type} [Field α] (v : CVec α) : v.podSize = v.flat.length :=
+  FeatModel.C13L.podSize_eq_flat_length v
+
+/-- `PowerMirror<Sub, n>` (`n = xs.length + 1`) over the right-nested vector of the `n` components `x :: xs`:
+the buffer size is the sum of the `n` component buffer sizes -/
+theorem C13.power_bufSize {α : Type} [Field α] (s : CMir) (x : CVec α) (xs : List (CVec α)) :
+    (CMir.power (xs.length + 1) s).bufSize (powerVec x xs) = ((x :: xs).map fun y => s.bufSize y).sum :=
+  FeatModel.C13L.power_bufSize s x xs
+
+/-- … and it is well-formed as soon as the sub-mirror is well-formed on every component -/
+theorem C13.power_wf {α : Type} [Field α] (s : CMir) (x : CVec α) (xs : List (CVec α))
+    (h : ∀ y ∈ x :: xs, s.wf y = true) : (CMir.power (xs.length + 1) s).wf (powerVec x xs) = true :=
+  FeatModel.C13L.power_wf s x xs h
+
+example : exCMir.wf exCVec = true ∧ exCMir.bufSize exCVec = 11
+    ∧ exCMir.flatIdx exCVec 0 = [4, 5, 0, 1, 7, 8, 9, 10, 11, 12, 13] := by decide
+example : exNMir.wf exNVec = true ∧ exNMir.bufSize exNVec = 6 ∧ exNMir.flatIdx exNVec 0 = [1, 1, 3, 3, 4, 5] := by
+  decide
+example : powerVec (.leaf 1 [1, 2]) [.leaf 1 [3, 4], .leaf 1 [(5 : ℚ), 6]]
+    = .pair (.leaf 1 [1, 2]) (.pair (.leaf 1 [3, 4]) (.leaf 1 [5, 6])) := rfl
+
+/-- (B) **the composite gather is the flat gather through the flattened mirror, written at the incoming
+buffer offset** — for every tuple arity and nesting -/
+theorem C13.cgather_flat {α : Type} [Field α] (m : CMir) (v : CVec α) (h : m.wf v = true) (buf : List α) (off : Nat)
+    (hb : off + m.bufSize v ≤ buf.length) :
+    cgather m v buf off = writeAt buf off (gather (m.flatIdx v 0) v.flat) :=
+  FeatModel.C13L.cgather_flat m v h buf off hb
+
+theorem C13.cgather_length {α : Type} [Field α] (m : CMir) (v : CVec α) (h : m.wf v = true) (buf : List α)
+    (off : Nat) (hb : off + m.bufSize v ≤ buf.length) : (cgather m v buf off).length = buf.length :=
+  FeatModel.C13L.cgather_length m v h buf off hb
+
+/-- component-wise reading: the second component is gathered behind the first one's `buffer_size` -/
+theorem C13.cgather_pair {α : Type} [Field α] (a b : CMir) (x y : CVec α) (buf : List α) (off : Nat) :
+    cgather (.pair a b) (.pair x y) buf off = cgather b y (cgather a x buf off) (off + a.bufSize x) := rfl
+
+/-- buffer position `off + k` receives the vector entry addressed by the `k`-th flattened mirror index -/
+theorem C13.cgather_val_inside {α : Type} [Field α] (m : CMir) (v : CVec α) (h : m.wf v = true) (buf : List α)
+    (off : Nat) (hb : off + m.bufSize v ≤ buf.length) (k : Nat) (hk : k < m.bufSize v) :
+    val (cgather m v buf off) (off + k) = val v.flat ((m.flatIdx v 0).getD k 0) := by
+  have hl := FeatModel.C13L.flatIdx_length m v h 0
+  rw [FeatModel.C13L.cgather_flat m v h buf off hb,
+    writeAt_val_inside _ _ _ (by omega) k (by rw [gather_length, hl]; exact hk)]
+  simp [gather, val, List.getD_eq_getElem?_getD, hl, hk]
+
+/-- positions outside `[off, off + buffer_size)` are untouched -/
+theorem C13.cgather_val_outside {α : Type} [Field α] (m : CMir) (v : CVec α) (h : m.wf v = true) (buf : List α)
+    (off : Nat) (hb : off + m.bufSize v ≤ buf.length) (i : Nat) (hi : i < off ∨ off + m.bufSize v ≤ i) :
+    val (cgather m v buf off) i = val buf i := by
+  have hl : (gather (m.flatIdx v 0) v.flat).length = m.bufSize v := by
+    rw [gather_length, FeatModel.C13L.flatIdx_length m v h 0]
+  rw [FeatModel.C13L.cgather_flat m v h buf off hb]
+  exact writeAt_val_outside _ _ _ (by rw [hl]; exact hb) i (by rw [hl]; exact hi)
+
+example : 2 + exCMir.bufSize exCVec ≤ (List.replicate 14 (0 : ℚ)).length := by decide
+example : cgather exCMir exCVec (List.replicate 14 0) 2 = [0, 0, 5, 6, 1, 2, 8, 9, 10, 11, 12, 13, 14, 0] := by
+  decide
+
+/-- (C) **the composite scatter is the flat scatter through the flattened mirror, reading the buffer from
+the incoming offset**; with `C13.scatterAxpy_val` this gives every entry of every component -/
+theorem C13.cscatter_flat {α : Type} [Field α] (m : CMir) (v : CVec α) (h : m.wf v = true) (buf : List α) (a : α)
+    (off : Nat) :
+    (cscatter m v buf a off).flat = scatterAxpy v.flat (m.flatIdx v 0) (buf.drop off) a :=
+  FeatModel.C13L.cscatter_flat m v h buf a off
+
+/-- a scatter keeps tree shape, block sizes and leaf lengths (no hypothesis on the mirror) … -/
+theorem C13.cscatter_sameShape {α : Type} [Field α] (m : CMir) (v : CVec α) (buf : List α) (a : α) (off : Nat) :
+    (cscatter m v buf a off).sameShape v :=
+  FeatModel.C13L.cscatter_sameShape m v buf a off
+
+/-- … hence well-formedness, buffer size and flattened indices of any mirror `m'` -/
+theorem C13.cscatter_wf {α : Type} [Field α] (m m' : CMir) (v : CVec α) (buf : List α) (a : α) (off : Nat) :
+    m'.wf (cscatter m v buf a off) = m'.wf v ∧ m'.bufSize (cscatter m v buf a off) = m'.bufSize v
+      ∧ ∀ voff, m'.flatIdx (cscatter m v buf a off) voff = m'.flatIdx v voff :=
+  ⟨sameShape_wf m' (FeatModel.C13L.cscatter_sameShape m v buf a off),
+   sameShape_bufSize m' (FeatModel.C13L.cscatter_sameShape m v buf a off),
+   sameShape_flatIdx m' (FeatModel.C13L.cscatter_sameShape m v buf a off)⟩
+
+/-- a vector is determined by its shape and its flattening -/
+theorem C13.sameShape_flat_ext {α : Type} [Field α] (v w : CVec α) (hs : v.sameShape w) (hf : v.flat = w.flat) :
+    v = w :=
+  FeatModel.C13L.sameShape_flat_ext hs hf
+
+example : (cscatter exCMir exCVec [100, 1, 2, 3, 4, 5, 6, 7, 8, 9, 10, 11] 2 1).leaves
+    = [[7, 10, 3, 4, 7, 10], [7, 18], [21, 24, 27, 30, 33, 36]] := by
+  simp [cscatter, exCMir, exCVec, scatterAxpy, expand, CVec.leaves, CMir.bufSize, List.range, List.range.loop,
+    List.modify]
+  norm_num
+
+/-! ### Muxer -/
+
+/-- (D) **`Muxer::join`**: entry `i` of the parent vector is the sum, over all children `c` and all mirror
+positions `k` with `(cm_c.flatIdx)[k] = i`, of child `c`'s entry `(pm_c.flatIdx)[k]` — every child position
+exactly once, independent of the padding `B` and of the previous contents of `trg` -/
+theorem C13.muxJoin_val {α : Type} [Field α] (B : Nat) (pm cm : List CMir) (srcs : List (CVec α)) (trg : CVec α)
+    (hpm : ∀ c < cm.length, (pm.getD c default).wf (srcs.getD c default) = true)
+    (hcm : ∀ c < cm.length, (cm.getD c default).wf trg = true)
+    (hsz : ∀ c < cm.length, (pm.getD c default).bufSize (srcs.getD c default) = (cm.getD c default).bufSize trg
+      ∧ (cm.getD c default).bufSize trg ≤ B)
+    (i : Nat) (hi : i < trg.podSize) :
+    val (muxJoin B pm cm srcs trg).flat i
+      = ((List.range cm.length).map fun c =>
+          ((((cm.getD c default).flatIdx trg 0).zip ((pm.getD c default).flatIdx (srcs.getD c default) 0)).filter
+              (fun p => p.1 = i) |>.map fun p => val (srcs.getD c default).flat p.2).sum).sum :=
+  FeatModel.C13L.muxJoin_val B pm cm srcs trg hpm hcm hsz i hi
+
+/-- the joined vector has the shape of `trg` -/
+theorem C13.muxJoin_sameShape {α : Type} [Field α] (B : Nat) (pm cm : List CMir) (srcs : List (CVec α))
+    (trg : CVec α)
+    (hpm : ∀ c < cm.length, (pm.getD c default).wf (srcs.getD c default) = true)
+    (hcm : ∀ c < cm.length, (cm.getD c default).wf trg = true)
+    (hsz : ∀ c < cm.length, (pm.getD c default).bufSize (srcs.getD c default) = (cm.getD c default).bufSize trg
+      ∧ (cm.getD c default).bufSize trg ≤ B) :
+    (muxJoin B pm cm srcs trg).sameShape trg :=
+  (FeatModel.C13L.muxJoin_flat B pm cm srcs trg hpm hcm hsz).1
+
+/-- **`Muxer::split`**: child `c` receives, at its parent-mirror positions, the parent's entries at the
+child-mirror positions (scattered into a zero vector) -/
+theorem C13.muxSplit_flat {α : Type} [Field α] (B : Nat) (pm cm : List CMir) (src : CVec α) (trgs : List (CVec α))
+    (hpm : ∀ c < cm.length, (pm.getD c default).wf (trgs.getD c default) = true)
+    (hcm : ∀ c < cm.length, (cm.getD c default).wf src = true)
+    (hsz : ∀ c < cm.length, (pm.getD c default).bufSize (trgs.getD c default) = (cm.getD c default).bufSize src
+      ∧ (cm.getD c default).bufSize src ≤ B)
+    (c : Nat) (hc : c < cm.length) :
+    ((muxSplit B pm cm src trgs).getD c default).flat
+      = scatterAxpy ((trgs.getD c default).zero).flat ((pm.getD c default).flatIdx (trgs.getD c default) 0)
+          (gather ((cm.getD c default).flatIdx src 0) src.flat) 1 :=
+  (FeatModel.C13L.muxSplit_flat B pm cm src trgs hpm hcm hsz c hc).2
+
+theorem C13.muxSplit_sameShape {α : Type} [Field α] (B : Nat) (pm cm : List CMir) (src : CVec α)
+    (trgs : List (CVec α))
+    (hpm : ∀ c < cm.length, (pm.getD c default).wf (trgs.getD c default) = true)
+    (hcm : ∀ c < cm.length, (cm.getD c default).wf src = true)
+    (hsz : ∀ c < cm.length, (pm.getD c default).bufSize (trgs.getD c default) = (cm.getD c default).bufSize src
+      ∧ (cm.getD c default).bufSize src ≤ B)
+    (c : Nat) (hc : c < cm.length) :
+    ((muxSplit B pm cm src trgs).getD c default).sameShape (trgs.getD c default) :=
+  (FeatModel.C13L.muxSplit_flat B pm cm src trgs hpm hcm hsz c hc).1
+
+/-- the muxer hypotheses hold on a 2-child example with different buffer sizes (5 and 6, `B = 6`) -/
+example : (∀ c < exMuxCm.length, (exMuxPm.getD c default).wf (exMuxChildren.getD c default) = true)
+    ∧ (∀ c < exMuxCm.length, (exMuxCm.getD c default).wf exMuxX = true)
+    ∧ (∀ c < exMuxCm.length, (exMuxPm.getD c default).bufSize (exMuxChildren.getD c default)
+        = (exMuxCm.getD c default).bufSize exMuxX ∧ (exMuxCm.getD c default).bufSize exMuxX ≤ 6)
+    ∧ muxBufSize exMuxCm exMuxX = 6 := by decide
+
+/-- **split then join**: with duplicate-free parent mirrors, every parent entry comes back multiplied by the
+number of (child, mirror position) pairs that address it … -/
+theorem C13.muxJoin_muxSplit {α : Type} [Field α] (B : Nat) (pm cm : List CMir) (X : CVec α) (trgs : List (CVec α))
+    (hpm : ∀ c < cm.length, (pm.getD c default).wf (trgs.getD c default) = true)
+    (hcm : ∀ c < cm.length, (cm.getD c default).wf X = true)
+    (hsz : ∀ c < cm.length, (pm.getD c default).bufSize (trgs.getD c default) = (cm.getD c default).bufSize X
+      ∧ (cm.getD c default).bufSize X ≤ B)
+    (hnd : ∀ c < cm.length, ((pm.getD c default).flatIdx (trgs.getD c default) 0).Nodup)
+    (i : Nat) (hi : i < X.podSize) :
+    val (muxJoin B pm cm (muxSplit B pm cm X trgs) X).flat i
+      = ((((List.range cm.length).map fun c => ((cm.getD c default).flatIdx X 0).count i).sum : Nat) : α)
+          * val X.flat i :=
+  FeatModel.C13L.muxJoin_muxSplit B pm cm X trgs hpm hcm hsz hnd i hi
+
+/-- … so `join ∘ split = id` on every parent entry that lies in exactly one child (at one mirror position) -/
+theorem C13.muxJoin_muxSplit_id {α : Type} [Field α] (B : Nat) (pm cm : List CMir) (X : CVec α)
+    (trgs : List (CVec α))
+    (hpm : ∀ c < cm.length, (pm.getD c default).wf (trgs.getD c default) = true)
+    (hcm : ∀ c < cm.length, (cm.getD c default).wf X = true)
+    (hsz : ∀ c < cm.length, (pm.getD c default).bufSize (trgs.getD c default) = (cm.getD c default).bufSize X
+      ∧ (cm.getD c default).bufSize X ≤ B)
+    (hnd : ∀ c < cm.length, ((pm.getD c default).flatIdx (trgs.getD c default) 0).Nodup)
+    (i : Nat) (hi : i < X.podSize)
+    (hone : ((List.range cm.length).map fun c => ((cm.getD c default).flatIdx X 0).count i).sum = 1) :
+    val (muxJoin B pm cm (muxSplit B pm cm X trgs) X).flat i = val X.flat i := by
+  rw [FeatModel.C13L.muxJoin_muxSplit B pm cm X trgs hpm hcm hsz hnd i hi, hone]; simp
+
+/-- the parent mirrors of the example are duplicate-free; parent entries 0 and 3 lie in exactly one child,
+entry 2 in both -/
+example : (∀ c < exMuxCm.length, ((exMuxPm.getD c default).flatIdx (exMuxChildren.getD c default) 0).Nodup)
+    ∧ (∀ i ∈ [0, 1, 3, 6, 7], ((List.range exMuxCm.length).map fun c =>
+        ((exMuxCm.getD c default).flatIdx exMuxX 0).count i).sum = 1)
+    ∧ ((List.range exMuxCm.length).map fun c => ((exMuxCm.getD c default).flatIdx exMuxX 0).count 2).sum = 2 := by
+  decide
+
+/-- **join then split** for one child with duplicate-free mirrors: the child gets back its own entries at the
+parent-mirror positions and zero elsewhere -/
+theorem C13.muxSplit_muxJoin_single {α : Type} [Field α] (B : Nat) (pm0 cm0 : CMir) (s trg : CVec α)
+    (hpm : pm0.wf s = true) (hcm : cm0.wf trg = true)
+    (hsz : pm0.bufSize s = cm0.bufSize trg ∧ cm0.bufSize trg ≤ B)
+    (hndp : (pm0.flatIdx s 0).Nodup) (hndc : (cm0.flatIdx trg 0).Nodup) (j : Nat) (hj : j < s.podSize) :
+    val ((muxSplit B [pm0] [cm0] (muxJoin B [pm0] [cm0] [s] trg) [s]).getD 0 default).flat j
+      = if j ∈ pm0.flatIdx s 0 then val s.flat j else 0 :=
+  FeatModel.C13L.muxSplit_muxJoin_single B pm0 cm0 s trg hpm hcm hsz hndp hndc j hj
+
+example : ((exMuxPm.getD 1 default).flatIdx (exMuxChildren.getD 1 default) 0).Nodup
+    ∧ ((exMuxCm.getD 1 default).flatIdx exMuxX 0).Nodup
+    ∧ (exMuxPm.getD 1 default).wf (exMuxChildren.getD 1 default) = true
+    ∧ (exMuxCm.getD 1 default).wf exMuxX = true := by decide
+
+/-! ### the gate over composite vectors -/
+
+/-- (E) **the composite `SynchVectorTicket` is the flat one on the flattened patches and vectors**, provided every
+vector has the shape of its patch template and every mirror is well-formed on it; so `C13.sync0_order_indep`,
+`C13.sync0_sum`, … apply verbatim to tuple / power / nested vectors -/
+theorem C13.csync0_flat {α : Type} [Field α] (ps : List (CPatch α)) (vs : List (CVec α))
+    (hshape : ∀ s, s < ps.length → (vs.getD s default).sameShape (ps.getD s default).tmpl)
+    (hwf : ∀ s, s < ps.length → ∀ nb ∈ (ps.getD s default).nbrs, nb.2.wf (ps.getD s default).tmpl = true)
+    (r : Nat) (hr : r < ps.length) (ord : List Nat) :
+    (csync0Patch ps vs r ord).flat = sync0Patch (ps.map CPatch.flatten) (vs.map CVec.flat) r ord :=
+  (csync0Patch_flat ps vs ⟨hshape, hwf⟩ r hr ord).2
+
+/-- … and it keeps the shape -/
+theorem C13.csync0_sameShape {α : Type} [Field α] (ps : List (CPatch α)) (vs : List (CVec α))
+    (hshape : ∀ s, s < ps.length → (vs.getD s default).sameShape (ps.getD s default).tmpl)
+    (hwf : ∀ s, s < ps.length → ∀ nb ∈ (ps.getD s default).nbrs, nb.2.wf (ps.getD s default).tmpl = true)
+    (r : Nat) (hr : r < ps.length) (ord : List Nat) :
+    (csync0Patch ps vs r ord).sameShape (ps.getD r default).tmpl :=
+  (csync0Patch_flat ps vs ⟨hshape, hwf⟩ r hr ord).1
+
+/-- the send buffers agree as well (gathering into a zero buffer of exactly `buffer_size` entries) -/
+theorem C13.csendBuf_flat {α : Type} [Field α] (ps : List (CPatch α)) (vs : List (CVec α))
+    (hshape : ∀ s, s < ps.length → (vs.getD s default).sameShape (ps.getD s default).tmpl)
+    (hwf : ∀ s, s < ps.length → ∀ nb ∈ (ps.getD s default).nbrs, nb.2.wf (ps.getD s default).tmpl = true)
+    (s r : Nat) :
+    csendBuf ps vs s r = sendBuf (ps.map CPatch.flatten) (vs.map CVec.flat) s r :=
+  FeatModel.C13L.csendBuf_flat ps vs ⟨hshape, hwf⟩ s r
+
+/-- the composite synchronisation does not depend on the arrival order (the vectors themselves, not only
+their flattenings) -/
+theorem C13.csync0_order_indep {α : Type} [Field α] (ps : List (CPatch α)) (vs : List (CVec α))
+    (hshape : ∀ s, s < ps.length → (vs.getD s default).sameShape (ps.getD s default).tmpl)
+    (hwf : ∀ s, s < ps.length → ∀ nb ∈ (ps.getD s default).nbrs, nb.2.wf (ps.getD s default).tmpl = true)
+    (r : Nat) (hr : r < ps.length) (o₁ o₂ : List Nat) (h : o₁.Perm o₂) :
+    csync0Patch ps vs r o₁ = csync0Patch ps vs r o₂ :=
+  csync0Patch_perm ps vs ⟨hshape, hwf⟩ r hr h
+
+example : ∀ s, s < exCPs.length → (exCVs.getD s default).sameShape (exCPs.getD s default).tmpl := by
+  intro s hs
+  have hs' : s = 0 ∨ s = 1 ∨ s = 2 := by change s < 3 at hs; omega
+  rcases hs' with rfl | rfl | rfl <;> exact ⟨⟨rfl, rfl⟩, ⟨rfl, rfl⟩⟩
+example : ∀ s, s < exCPs.length → ∀ nb ∈ (exCPs.getD s default).nbrs, nb.2.wf (exCPs.getD s default).tmpl = true := by
+  decide
+example : ([1, 0] : List Nat).Perm [0, 1] ∧ (exCPs.map CPatch.flatten).map (·.nbrs)
+    = [[(1, [2, 5, 6]), (2, [0, 2, 5, 6, 3, 4])], [(0, [0, 2, 3])], [(0, [1, 0, 2, 3, 4, 5])]] := by decide
+
+theorem C13.csync0_order_indep_all {α : Type} [Field α] (ps : List (CPatch α)) (vs : List (CVec α))
+    (hshape : ∀ s, s < ps.length → (vs.getD s default).sameShape (ps.getD s default).tmpl)
+    (hwf : ∀ s, s < ps.length → ∀ nb ∈ (ps.getD s default).nbrs, nb.2.wf (ps.getD s default).tmpl = true)
+    (ords₁ ords₂ : List (List Nat)) (h : ∀ r, (ords₁.getD r []).Perm (ords₂.getD r [])) :
+    csync0 ps ords₁ vs = csync0 ps ords₂ vs := by
+  unfold csync0
+  apply List.map_congr_left
+  intro r hr
+  exact csync0Patch_perm ps vs ⟨hshape, hwf⟩ r (List.mem_range.1 hr) (h r)
+
+/-- `Gate::compile` on a composite vector: the frequencies vector is the flat one, in the template's shape -/
+theorem C13.cfreqs_flat {α : Type} [Field α] (p : CPatch α) (hwf : ∀ nb ∈ p.nbrs, nb.2.wf p.tmpl = true) :
+    (cfreqs p).sameShape p.tmpl ∧ (cfreqs p).flat = freqs p.flatten :=
+  FeatModel.C13L.cfreqs_flat p hwf
+
+theorem C13.cfrom1to0_flat {α : Type} [Field α] (p : CPatch α) (hwf : ∀ nb ∈ p.nbrs, nb.2.wf p.tmpl = true)
+    (v : CVec α) (hv : v.sameShape p.tmpl) :
+    (cfrom1to0 p v).sameShape p.tmpl ∧ (cfrom1to0 p v).flat = from1to0 p.flatten v.flat :=
+  FeatModel.C13L.cfrom1to0_flat p hwf v hv
+
+/-- `Gate::sync_1` on composite vectors is the flat `sync_1` (so `C13.sync1_common` applies) -/
+theorem C13.csync1_flat {α : Type} [Field α] (ps : List (CPatch α)) (vs : List (CVec α))
+    (hshape : ∀ s, s < ps.length → (vs.getD s default).sameShape (ps.getD s default).tmpl)
+    (hwf : ∀ s, s < ps.length → ∀ nb ∈ (ps.getD s default).nbrs, nb.2.wf (ps.getD s default).tmpl = true)
+    (ords : List (List Nat)) (r : Nat) (hr : r < ps.length) :
+    ((csync1 ps ords vs).getD r default).sameShape (ps.getD r default).tmpl ∧
+    ((csync1 ps ords vs).getD r default).flat
+      = (sync1 (ps.map CPatch.flatten) ords (vs.map CVec.flat)).getD r [] :=
+  FeatModel.C13L.csync1_flat ps vs ⟨hshape, hwf⟩ ords r hr
+
+/-- `Gate::dot` on composite vectors is the flat `Gate::dot` (so `C13.gdot_eq` applies) -/
+theorem C13.cgdot_flat {α : Type} [Field α] (ps : List (CPatch α))
+    (hwf : ∀ s, s < ps.length → ∀ nb ∈ (ps.getD s default).nbrs, nb.2.wf (ps.getD s default).tmpl = true)
+    (xs ys : List (CVec α)) :
+    cgdot ps xs ys = gdot (ps.map CPatch.flatten) (xs.map CVec.flat) (ys.map CVec.flat) :=
+  FeatModel.C13L.cgdot_flat ps hwf xs ys
+
+example : ∀ nb ∈ (exCPs.getD 0 default).nbrs, nb.2.wf (exCPs.getD 0 default).tmpl = true := by decide
